@@ -6,7 +6,7 @@
 prop=$1; dir=$(realpath "$2"); shift 2; extra="$@"
 cd "$(dirname "$0")/.." || exit 2
 SCR=$(mktemp -d /tmp/scr.XXXXXX)
-git -C /repo worktree add -q --detach "$SCR" HEAD || exit 2
+git -C /repo worktree add -q --detach "$SCR" ${BASE:-HEAD} || exit 2
 cleanup(){ git -C /repo worktree remove --force "$SCR" 2>/dev/null; rm -rf "$SCR"; }
 trap cleanup EXIT
 if ! git -C "$SCR" apply "$dir/patch.diff"; then echo "RESULT $prop patch-does-not-apply"; exit 3; fi
